@@ -615,6 +615,10 @@ def run_check(pid, tier, seed, workers=None):
         print("   %-38s %d" % (k, v))
     for k, v in sorted(keycount.items()):
         print("   violation-key %-40s %d" % (k, v))
+    if reported:
+        # a violation confirmed twice in fresh processes is the verdict, whatever else (a hang that does not reproduce
+        # on a less loaded machine, an unconfirmed second key) was seen in the same run
+        return 1
     return status
 
 
